@@ -169,6 +169,14 @@ def resolveEvent (e : Eng) (toks : List String) : Option Event :=
         | some (side, q) => Event.update (.position i side (q / 2))
         | none => Event.update (.flat i))
       | none => Event.update (.flat i)
+  -- `ev fill i side q` with q > 0: an account trade, NETTED against the open position of instrument `i`
+  -- (`Engine.fillUpdate` / `netFill`: increase, reduce, close exactly, flip); on a flat instrument this is
+  -- `.position i side q` as before
+  | ["fill", i, side, q] =>
+    match i.toNat?, parseSide side, parseRat? q with
+    | some i, some side, some q =>
+      if 0 < q then some (Event.update (fillUpdate e i side q)) else parseEvent toks
+    | _, _, _ => none
   | _ => parseEvent toks
 
 def Event.instrumentsInRange (n : Nat) : Event → Bool
@@ -271,8 +279,9 @@ def fmtOStateDigest : OState → String
 /-- `engine_proto.rs event_digest`: kind + identifying fields of an event. `pre` is the engine state
 BEFORE the event: the model's `.flat i` / `.position i side q` updates stand for the account TRADE the
 harness builds against that state (`build_event`): `flat` = opposite side of the open position, full
-quantity; a `.position` that keeps the open position's side with a smaller quantity (`reduce`) = opposite
-side, the difference; otherwise (`fill` on a flat instrument) the side and quantity as given. -/
+quantity; a `.position` on an instrument that holds a position = the trade that takes the open position
+to the new one (`tradeBetween`: `reduce`, and `fill` netted by `fillUpdate`); otherwise (`fill` on a flat
+instrument) the side and quantity as given. -/
 def eventDigest (pre : Eng) : Event → String
   | .shutdown => "shutdown"
   | .command (.sendOpenRequests rs) => "cmd_open " ++ joinOr (rs.map fmtOpenReq)
@@ -287,8 +296,11 @@ def eventDigest (pre : Eng) : Event → String
   | .update (.position i side q) =>
     (match (pre.instruments[i]?).bind (·.position) with
       | some (pside, pq) =>
-        if pside == side && q < pq then s!"trade {i} {fmtSide pside.opposite} {fmtRat (pq - q)}"
-        else s!"trade {i} {fmtSide side} {fmtRat q}"
+        -- the trade that takes the open position to `(side, q)` (inverse of `netFill`:
+        -- Props.C19.netted_trade_is_recovered); same signed quantity: the values as given
+        (match tradeBetween (some (pside, pq)) (some (side, q)) with
+          | some (ts, tq) => s!"trade {i} {fmtSide ts} {fmtRat tq}"
+          | none => s!"trade {i} {fmtSide side} {fmtRat q}")
       | none => s!"trade {i} {fmtSide side} {fmtRat q}")
   | .update (.flat i) =>
     (match (pre.instruments[i]?).bind (·.position) with
